@@ -418,9 +418,9 @@ func (c *c15) step(st c15Step) error {
 	evs := c.lab.Log.Since(seq0)
 	hostKey := c.lab.HostKey.PublicKey()
 
-	paid := map[uint64]proto4.Usage{}   // stream -> successful debit
-	debited := map[uint64]bool{}        // stream -> a debit was attempted
-	served := map[uint64]int{}          // stream -> service calls
+	paid := map[uint64]proto4.Usage{} // stream -> successful debit
+	debited := map[uint64]bool{}      // stream -> a debit was attempted
+	served := map[uint64]int{}        // stream -> service calls
 	for i := range evs {
 		ev := &evs[i]
 		switch ev.Kind {
@@ -865,13 +865,13 @@ func (c *c15) runTable() error {
 	}
 	// (4) replenish levels: below / at / above target, mixed lists
 	steps = append(steps,
-		c15Step{Op: "repl-acc", Acc: []int{a, a + 1}, Amounts: []string{"900000000000"}},   // a at target, a+1 below
-		c15Step{Op: "repl-acc", Acc: []int{a, a + 1}, Amounts: []string{"900000000001"}},   // both 1 below
-		c15Step{Op: "repl-acc", Acc: []int{a, a + 1}, Amounts: []string{"900000000000"}},   // both 1 above
-		c15Step{Op: "repl-pool", Pool: []int{p, p + 1}, Amounts: []string{"4999999"}},      // above (after drains maybe below)
+		c15Step{Op: "repl-acc", Acc: []int{a, a + 1}, Amounts: []string{"900000000000"}},     // a at target, a+1 below
+		c15Step{Op: "repl-acc", Acc: []int{a, a + 1}, Amounts: []string{"900000000001"}},     // both 1 below
+		c15Step{Op: "repl-acc", Acc: []int{a, a + 1}, Amounts: []string{"900000000000"}},     // both 1 above
+		c15Step{Op: "repl-pool", Pool: []int{p, p + 1}, Amounts: []string{"4999999"}},        // above (after drains maybe below)
 		c15Step{Op: "repl-pool", Pool: []int{p, p + 1, p + 2}, Amounts: []string{"5000001"}}, // new pool in the list
-		c15Step{Op: "repl-acc", Acc: []int{a, a}, Amounts: []string{"2000000000000"}},      // the same account listed twice
-		c15Step{Op: "repl-pool", Pool: []int{p, p}, Amounts: []string{"7000000"}},          // the same pool listed twice
+		c15Step{Op: "repl-acc", Acc: []int{a, a}, Amounts: []string{"2000000000000"}},        // the same account listed twice
+		c15Step{Op: "repl-pool", Pool: []int{p, p}, Amounts: []string{"7000000"}},            // the same pool listed twice
 	)
 	for _, st := range steps {
 		if st.Op == "attach" && st.Bad == "" && len(st.Pool) == 1 && st.Pool[0] == p+7 {
